@@ -29,7 +29,9 @@ def gen_token(rng):
 
 LEAVES = ['role:admin', 'role:member', 'role:r0', 'is_admin:True', 'user_id:%(user_id)s', 'project_id:%(project_id)s',
           'system_scope:all', 'system:all', 'system.all:True', 'user.id:u1', 'project.id:%(project_id)s', 'domain_id:d1',
-          'rule:helper', 'rule:default_like', 'rule:undefined_one', "'a':%(custom.key)s", 'roles:admin', '@', '!']
+          'rule:helper', 'rule:default_like', 'rule:undefined_one', "'a':%(custom.key)s", 'roles:admin', '@', '!',
+          'user_id:%(nested.after)s', 'user_id:%(nested.a.b)s', 'user_id:%(custom.owner)s', 'user_id:%(last)s',
+          'user_id:%(custom.deep.owner)s', 'user_id:%(nested.a.after)s']
 
 
 def gen_policy(rng):
@@ -80,7 +82,17 @@ def library_view(rules_text, token, is_admin, target_json):
         creds['system_scope'] = 'all'
     creds['is_admin'] = is_admin
     if target_json is not None:
-        target = shell.flatten(copy.deepcopy(target_json))
+        # "nested target flattening to dotted keys", read independently of the tool's own flatten()
+        def flat(d, prefix=''):
+            out = {}
+            for k, v in d.items():
+                nk = prefix + '.' + k if prefix else k
+                if isinstance(v, dict):
+                    out.update(flat(v, nk))
+                else:
+                    out[nk] = v
+            return out
+        target = flat(copy.deepcopy(target_json))
     else:
         target = {'user_id': tok['user']['id']}
         if creds.get('project_id'):
@@ -114,8 +126,10 @@ def run(run, binfo):
         is_admin = rng.random() < 0.3
         target_json = None
         if rng.random() < 0.4:
-            target_json = {'user_id': rng.choice(['u1', 'zz']), 'project_id': rng.choice(['p1', 'p2']),
-                           'custom': {'key': rng.choice(['a', 'b']), 'deep': {'er': 1}}}
+            target_json = {'custom': {'key': rng.choice(['a', 'b']), 'deep': {'er': 1}, 'owner': rng.choice(['u1', 'zz'])},
+                           'user_id': rng.choice(['u1', 'zz']), 'project_id': rng.choice(['p1', 'p2']),
+                           'nested': {'a': {'b': rng.choice(['u1', 'u2'])}, 'after': rng.choice(['u1', 'u2'])},
+                           'last': 'u1'}
         pp = os.path.join(wd, 'pol.json')
         ap = os.path.join(wd, 'tok.json')
         tp = os.path.join(wd, 'tgt.json') if target_json is not None else None
